@@ -338,7 +338,7 @@ pub fn run_program(b: &Value, id: u64) -> RunOut {
         let mut ev = json!({"ev": "Sync", "now": w.now()});
         ev["snap"] = w.snapshot();
         ev["mx"] = json!([]);
-        let items = ev["snap"]["it"].clone();
+        let items = w.exec(&json!({"op": "Iter"}))["items"].clone();
         log.lock().unwrap().push(ev);
         log.lock().unwrap().push(json!({"ev": "Final", "items": items}));
         // the refill of C03: invalidate everything, then max_capacity fresh unit-weight entries
